@@ -36,8 +36,8 @@ CLAIMED = {
         technique="Rocq proof (induction over conclusions) about a hand model + exact correspondence on generated rules",
         ref="DESIGN.md §3 C07"),
     "C01": dict(
-        text="Model of Engine.process in scalar mode composed from the component models (antecedent evaluation, consequent modification, the seven activation methods, integral and weighted defuzzifiers, output cascade, translated term/norm/hedge kernels) and a theorem that, for every engine whose enabled blocks use General activation, process equals the declaratively stated documented pipeline (Spec/Pipeline.v): ordered contributions, rules see exactly the contributions so far, disabled rules/blocks/variables contribute nothing, stale fuzzy outputs and rule state are ignored, inputs are never changed, stored degrees are the firing degrees - proved for arbitrary engines by induction over blocks and rules, generic in the number type. Bit-exact correspondence of every observable (output value, previous value, each fuzzy-output term and degree, each rule's degree and triggered flag, or the exception class) on generated engines x rows with all activation methods, plus an independent Python re-statement of the pipeline as direct oracle.",
-        note="Coq kernel + vm_compute; theorems closed under the global context; hand models tied by correspondence; rule trees are taken from the implementation's loaded rules (parsing is C06); Function terms not generated; Python value kinds not modelled; known finding pipeline:hedged-consequent-leak reported as KNOWN-FINDING.",
+        text="Model of Engine.process in scalar mode composed from the component models (antecedent evaluation, consequent modification, the seven activation methods, integral and weighted defuzzifiers, output cascade, translated term/norm/hedge kernels) and theorems that process equals the declaratively stated documented pipeline - for EVERY engine and all seven activation methods (Spec/PipelineAll.v: interleaved evaluation/triggering for First/Last/Threshold, two-phase selection for Highest/Lowest/Proportional; Properties/C01b.v), with the General-only form (Spec/Pipeline.v) and its corollaries in Properties/C01.v and the form with Function terms evaluated by the formula model in Properties/C01c.v: ordered contributions, rules see exactly the contributions so far, disabled rules/blocks/variables contribute nothing, stale fuzzy outputs and rule state are ignored, inputs are never changed, stored degrees are the firing degrees - proved for arbitrary engines by induction over blocks and rules, generic in the number type. Bit-exact correspondence of every observable (output value, previous value, each fuzzy-output term and degree, each rule's degree and triggered flag, or the exception class) on generated engines x rows with all activation methods, plus an independent Python re-statement of the pipeline as direct oracle.",
+        note="Coq kernel + vm_compute; generic theorems closed under the global context (Highest/Lowest instances for binary64 use the standard library's FloatAxioms, for R the Reals axioms; C01c uses functional_extensionality_dep); hand models tied by correspondence; rule trees are taken from the implementation's loaded rules (parsing is C06); Linear terms and Function terms over + - * / are generated and evaluated by the formula model; Python value kinds not modelled; known finding pipeline:hedged-consequent-leak reported as KNOWN-FINDING.",
         technique="Rocq refinement proof (model of process = declarative pipeline spec) + bit-exact correspondence on generated engines",
         ref="DESIGN.md §3 C01, §9"),
     "C06": dict(
@@ -61,7 +61,7 @@ CLAIMED = {
         technique="Rocq proof over R / extended reals of a hand model + exact correspondence",
         ref="DESIGN.md §3 C10"),
     "C13": dict(
-        text="Operation language (set input, process, restart, copy, switch, edit rule/output/block) over a store of engine values built on the engine model; theorems: processing is history-free and idempotent on output values without lock-previous (General activation), process preserves structure, restart erases history and yields the fresh state, every operation touches the current engine only. Exact correspondence of every live engine's observables after every step of generated operation sequences; implementation-side oracles for idempotence, equality with a freshly built engine, restart cleanliness, and an object-graph check that a copy shares no mutable object with its original.",
+        text="Operation language (set input, process, restart, copy, switch, edit rule/output/block) over a store of engine values built on the engine model; theorems: processing is history-free and idempotent on output values without lock-previous for all seven activation methods (Properties/C13b.v; General-only forms in C13.v), process preserves structure, restart erases history and yields the fresh state, every operation touches the current engine only. Exact correspondence of every live engine's observables after every step of generated operation sequences; implementation-side oracles for idempotence, equality with a freshly built engine, restart cleanliness, and an object-graph check that a copy shares no mutable object with its original.",
         note="Coq kernel + vm_compute; closed under the global context; copy() is the identity on values in the model: independence of the Python object graphs is checked on the implementation only (ids + behaviour), not proved; engines with Linear/Function terms are checked on the implementation only.",
         technique="Rocq proof about operation sequences on the engine model + exact correspondence + object-graph oracle",
         ref="DESIGN.md §3 C13"),
